@@ -30,9 +30,26 @@ func (in *Interp) zeroResults(fn *ssa.Function) Value {
 	case 0:
 		return nil
 	case 1:
-		return in.zero(res.At(0).Type())
+		return in.noopZero(res.At(0).Type())
 	}
-	return in.zero(res)
+	t := make(Tuple, res.Len())
+	for i := range t {
+		t[i] = in.noopZero(res.At(i).Type())
+	}
+	return t
+}
+
+// noopZero: results of no-op (logging) packages; pointers to structs are non-nil empty objects so
+// that promoted-field accesses on them do not fault.
+func (in *Interp) noopZero(t types.Type) Value {
+	if p, ok := under(t).(*types.Pointer); ok {
+		if _, ok := under(p.Elem()).(*types.Struct); ok {
+			c := new(Value)
+			*c = in.zero(p.Elem())
+			return c
+		}
+	}
+	return in.zero(t)
 }
 
 func (in *Interp) intercept(fn *ssa.Function, args []Value) (Value, bool) {
